@@ -34,6 +34,7 @@ def exceptVal : Except Err Val → Val
   | .ok v => v
   | .error .stopIteration => err "StopIteration"
   | .error .index => err "IndexError"
+  | .error .overflow => err "OverflowError"
 
 def handle : Handler
   | "mgh.lb", [dx, dy, bx, by'] => do
